@@ -72,6 +72,7 @@ def run(R, tier, seed, driver_ok):
     lines, meta = [], []
     clines, cmeta = [], []
     glines, gmeta = [], []
+    rlines, rmeta = [], []
     for rep in range(reps):
         d = int(rng.randint(2, 5))
         X, y = zoo.blobs(rng, d, int(rng.randint(2, 4)))
@@ -164,6 +165,8 @@ def run(R, tier, seed, driver_ok):
         if not isinstance(init, str) and nc is not None:
             init = np.ascontiguousarray(init[:nc])
         max_iter = [0, 1, 2, 30, 60][rep % 5]
+        # step sizes that need halving, an early convergence test that can fire inside the budget
+        lr_ = float([1e-4, 1e-2, 1e-3, 1.0][rep % 4]); min_it_ = int([50, 3, 10][rep % 3]); ctol_ = float([1e-3, 1e-1, 1.0][rep % 3])
         cap = {'calls': [], 'targets': None, 'init': None}
         o_lg = LMNN._loss_grad; o_st = LMNN._select_targets; o_ic = mlmnn._initialize_components
 
@@ -182,7 +185,7 @@ def run(R, tier, seed, driver_ok):
         try:
             with warnings.catch_warnings(), contextlib.redirect_stdout(buf):
                 warnings.simplefilter('ignore')
-                est = LMNN(init=init, n_neighbors=kk, regularization=reg, max_iter=max_iter, n_components=nc, learn_rate=1e-4,
+                est = LMNN(init=init, n_neighbors=kk, regularization=reg, max_iter=max_iter, n_components=nc, learn_rate=lr_, min_iter=min_it_, convergence_tol=ctol_,
                            random_state=int(rng.randint(1 << 30)), verbose=True).fit(X, y)
         except Exception as e:
             R.violation(f'LMNN/fit-raises-{type(e).__name__}', f'LMNN.fit raised {type(e).__name__}: {str(e)[:200]}', {'learner': 'LMNN'}); continue
@@ -205,6 +208,14 @@ def run(R, tier, seed, driver_ok):
             R.violation('LMNN/zero-iterations-changed-init', f'LMNN(max_iter={max_iter}): components_ differs from the initialisation', case)
         if doc(Lf) > doc(cap['init']) + 1e-9 * max(1.0, abs(doc(cap['init']))):
             R.violation('LMNN/worse-than-init', 'LMNN objective at the result is larger than at the initialisation', case)
+        # the whole loop, replayed by the model from the captured initialisation (and once more from an initialisation
+        # perturbed in the last bit: how much this instance amplifies rounding calibrates the comparison)
+        L0c = cap['init']
+        tl = ' '.join(map(str, targets.ravel().tolist()))
+        for Lst in (L0c, L0c * (1 + 2.2e-16 * rng.randn(*L0c.shape))):
+            rlines.append(f'lmnn_run {L0c.shape[0]} {d} {n} {bits(Lst)} {bits(X)} {" ".join(map(str, y.tolist()))} {f2b(reg)} {kk} {tl} '
+                          f'{f2b(lr_)} {max_iter} {int(est.min_iter)} {f2b(float(est.convergence_tol))}')
+        rmeta.append((Lf.copy(), dict(case)))
         trace = [float(m.group(1)) for m in re.finditer(r'^\\d+ (\\S+) \\S+ \\d+ \\S+$', buf.getvalue(), flags=re.M)]
         if any(b > a + 1e-9 * max(1.0, abs(a)) for a, b in zip(trace, trace[1:])):
             R.violation('LMNN/accepted-objective-increased', 'LMNN accepted an iterate with a larger objective', case)
@@ -215,7 +226,14 @@ def run(R, tier, seed, driver_ok):
             dv = doc(Lc)
             if abs(dv - objc) > 1e-9 * max(1.0, abs(dv)):
                 R.violation('LMNN/value-differs-from-documented', f'LMNN objective {objc:.10g} ≠ documented pull+push objective {dv:.10g}', c2)
-            G = fd_grad(doc, Lc, h=1e-7)
+            # finite differences are only meaningful where no hinge changes sign within the difference step (the objective is
+            # piecewise quadratic; C10_lmnn_gradient proves the gradient away from the kinks and the twin compares it exactly)
+            EL0 = ((Lc.dot(X.T).T[:, None] - Lc.dot(X.T).T[None]) ** 2).sum(-1)
+            hng = np.array([1 + EL0[i, j] - EL0[i, l] for i in range(n) for j in targets[i] for l in range(n) if y[l] != y[i]])
+            fd_ok = not (hng.size and np.abs(hng).min() < 1e-4 * max(1.0, np.abs(EL0).max()))
+            G = fd_grad(doc, Lc, h=1e-7) if fd_ok else Gc
+            if not fd_ok:
+                R.count('LMNN:finite-differences-skipped-near-kink')
             if np.abs(G - Gc).max() > 1e-3 * max(1e-3, np.abs(G).max()) + 1e-6:
                 # the hinge is not differentiable at its kinks: confirm with a second step size before judging
                 G2 = fd_grad(doc, Lc, h=1e-8)
@@ -265,6 +283,23 @@ def run(R, tier, seed, driver_ok):
             if err > 1e-9:
                 R.broken(f'correspondence:C10:{what}', f'gradient of the model (code route, proved to be the derivative) differs from the gradient that drives the optimiser: relative max difference {err:.3g}', case)
         R.count('gradient_traces', len(glines))
+        outs = lean_run(rlines)
+        worst_run = 0.0
+        for i_, (Lf_, case) in enumerate(rmeta):
+            v, vp = parse_ok_floats(outs[2 * i_]), parse_ok_floats(outs[2 * i_ + 1])
+            if v is None or v.size != 2 + Lf_.size:
+                R.broken('driver:lmnn_run', f'model driver answered {outs[2 * i_][:80]}', case); continue
+            Lm = v[2:].reshape(Lf_.shape)
+            scale = max(np.abs(Lf_).max(), 1e-300)
+            sens = 1.0 if (vp is None or vp.size != v.size) else float(np.abs(vp[2:] - v[2:]).max()) / scale
+            if 1e3 * sens > 1e-4:
+                R.count('lmnn_run:skipped-rounding-sensitive'); continue     # a last-bit change of the start moves the result: no useful comparison
+            rel = float(np.abs(Lm - Lf_).max()) / scale
+            worst_run = max(worst_run, rel)
+            if rel > 1e-8 + 1e3 * sens:
+                R.broken('correspondence:C10:lmnn_run', f'the model of the fit loop (gradient steps, halving on increase, ×1.01, convergence test) ends at a transformation that differs from components_ by {rel:.3g} (relative; rounding sensitivity of the instance {sens:.3g})', case)
+        R.count('lmnn_run_traces', len(rmeta))
+        R.extra['lmnn_run_worst_relative_difference'] = worst_run
         R.extra['gradient_worst_relative_difference'] = worst
         R.count('lmnn_code_obj_traces', len(clines))
         R.extra['traces_validated_against_impl'] = len(lines) + len(clines) + len(glines)
